@@ -13,6 +13,7 @@ import (
 //	q|<history>            qualified symbols handed to boundp / symbol-value /
 //	                       fboundp / funcall / #' after every history of the
 //	                       small configuration up to staticDepth
+//	h|<history>            a plain history judged at its last step (seed prefixes)
 //	d|<options of b>|<history>   package b created with defpackage :use / :export
 //	                       options, then every history up to staticDepth with the
 //	                       full oracle on the last step (the empty history checks
@@ -51,6 +52,17 @@ func enumerate(tier string, emit func(string)) {
 			emit("d|" + v + "|" + h)
 		}
 	}
+	// every proper prefix of every seed, judged at its last step (the complete
+	// seed is judged as the first BFS transition of the seeded exploration)
+	for _, seed := range seeds {
+		for k := 1; k < len(seed); k++ {
+			var l []string
+			for _, o := range seed[:k] {
+				l = append(l, "G0"+o)
+			}
+			emit("h|" + strings.Join(l, ","))
+		}
+	}
 }
 
 func parseHist(s string) (ops []op, ok bool) {
@@ -77,6 +89,13 @@ func execStatic(spec string) (res engine.Result) {
 			return
 		}
 		execQualified(ops, &res)
+	case parts[0] == "h" && len(parts) == 2:
+		ops, ok := parseHist(parts[1])
+		if !ok || len(ops) == 0 {
+			res.Fail("harness:bad-spec", spec)
+			return
+		}
+		runTransition(ops[0].cfg, nil, ops, &res)
 	case parts[0] == "d" && len(parts) == 3:
 		ops, ok := parseHist(parts[2])
 		if !ok {
